@@ -29,6 +29,23 @@ theorem shared_state_inventory :
       v.2 == "*analysis.Analyzer" || v.2 == "*regexp.Regexp" || v.2 == "*ahocorasick.Matcher" ||
       v.2 == "map[string][]codes.Code" || v.2 == "map[string][]string" || v.2 == "*config.Config" || v.2 == "sync.Once") = true := by decide
 
+/-- the index builders: they fill an index that belongs to one checker's pass over one package (never shared) -/
+def indexBuilders : List String :=
+  ["src/util.AttachmentsMap.AddPkgFunctionAttachment", "src/util.AttachmentsMap.AddPkgTypeAttachment",
+   "src/util.AttachmentsMap.AddPkgTypeMethodAttachment", "src/util.TypeAssociationRegistry.Add", "src/util.TypesMap.Add"]
+
+/-- **lookups do not write**: of the methods that the checkers — which run concurrently on one package and share
+    the readers' results (the ignore set, the annotations, the configuration) — call on reader / utility types,
+    only the per-pass index builders assign to their receiver's state, directly or through calls on the same
+    receiver (decided over T9, regenerated from /repo). `IgnoreSet.Contains`, the `Has*` / `Get*` / `Match` /
+    `Empty` lookups and `Config.FilterFiles` are read-only, so sharing them needs no synchronisation. -/
+theorem shared_lookups_read_only :
+    GGV.Gen.sharedReadMethods.all (fun m => m.2 == "" || indexBuilders.contains m.1) = true := by decide +kernel
+
+/-- … and the lookup the reporters share is among them -/
+theorem contains_is_shared_lookup :
+    (GGV.Gen.sharedReadMethods.any (fun m => m.1 == "src/util.IgnoreSet.Contains")) = true := by decide +kernel
+
 /-! ## `sync.Once` interleavings -/
 
 /-- a worker is before `Do`, inside `Do` running `init`, blocked in `Do` waiting for the running `init`, or past `Do` -/
